@@ -6,7 +6,9 @@ CONSTANTS
   MaxBurst = 4
   MaxMsgs = 12
   Depth = 16
-  Focus = FALSE
+  Mode = "all"
+  Aware = FALSE
+  Holds = {FALSE}
 INVARIANT Inv
 CONSTRAINT EmitAll
 CHECK_DEADLOCK FALSE
